@@ -67,12 +67,18 @@ namespace igris
 
         size_t read(T *buf, size_t sz)
         {
+            // ring_read takes an unsigned int; no ring delivers more
+            // than r.size - 1 elements
+            if (sz > r.size)
+                sz = r.size;
             size_t a = ring_read(&r, buffer.data(), buf, sz);
             return a;
         }
 
         size_t write(const T *buf, size_t sz)
         {
+            if (sz > r.size)
+                sz = r.size;
             size_t a = ring_write(&r, buffer.data(), buf, sz);
             return a;
         }
